@@ -526,6 +526,22 @@ def check_newton_parity(ctx: Ctx) -> None:
 
     s_a = {("out", "in"): 1, ("in", "out"): -1}.get((origin(subs[0].left), origin(subs[0].right)))
     ctx.ob("6.5-residual-def", con_a, s_a is not None, "the residual must be the difference between the outputs after the run (self.io.data) and the inputs before it", node=subs[0])
+    # ... and that difference is what is recorded for a resolved variable (the plain output for the others)
+    stores = [s_ for s_ in stmts_of(f) if isinstance(s_, ast.Assign) and len(s_.targets) == 1 and isinstance(s_.targets[0], ast.Subscript) and dotted(s_.targets[0].value) == "self._current_residuals"]
+    tests = {norm_stmt(n.test) for n in walk_body(f) if isinstance(n, (ast.If, ast.IfExp)) and isinstance(n.test, ast.Compare) and len(n.test.ops) == 1 and isinstance(n.test.ops[0], (ast.In, ast.NotIn)) and dotted(n.test.comparators[0]) == "self._resolved_variable_names"}
+    if stores and len(tests) == 1:
+        t_ = tests.pop()
+        neg = " not in " in t_
+        for resolved in (True, False):
+            vals = []
+            for st_ in stores:
+                vals += unfolded(f, st_, facts={t_: resolved != neg}, get=lambda s_: s_.value) or []
+            if resolved:
+                ok = bool(vals) and all(isinstance(v_, ast.BinOp) and isinstance(v_.op, ast.Sub) and (origin(v_.left), origin(v_.right)) in (("out", "in"), ("in", "out")) for v_ in vals)
+                ctx.ob("6.5-residual-def", con_a, ok, "for a variable the MDA resolves, the recorded residual is the difference outputs - inputs (found " + "; ".join(norm_stmt(v_, 60) for v_ in vals) + ")", node=stores[0], stmt="recorded residual of a resolved variable: the difference")
+            else:
+                ok = bool(vals) and all(origin(v_) == "out" and not any(isinstance(n_, ast.BinOp) for n_ in ast.walk(v_)) for v_ in vals)
+                ctx.ob("6.5-residual-def", con_a, ok, "for a residual variable computed by a discipline, the recorded residual is the discipline's own value (found " + "; ".join(norm_stmt(v_, 60) for v_ in vals) + ")", node=stores[0], stmt="recorded residual of a residual variable: the output itself")
     # b. residual in the assembly
     g = ctx.index.method(ASM, "JacobianAssembly", "residuals")
     con_b = cname(ASM, "JacobianAssembly", "residuals")
@@ -707,6 +723,8 @@ def run(ctx: Ctx) -> None:
 
 # ---------------------------------------------------------------------------
 WITNESSES = [
+    {"name": "recorded-residual-is-the-output", "file": BS, "old": "                self._current_residuals[name] = residual", "new": "                self._current_residuals[name] = local_data_array", "expect": "6.5"},
+    {"name": "resolved-and-residual-variables-swapped", "file": BS, "old": "                if name in self._resolved_variable_names:\n                    input_data_array", "new": "                if name not in self._resolved_variable_names:\n                    input_data_array", "expect": "6.5"},
     {"name": "history-kept-on-warm-start", "file": BS, "old": "        super()._execute()\n        self._sequence_transformer.clear()", "new": "        super()._execute()\n        if not self.settings.warm_start:\n            self._sequence_transformer.clear()", "expect": "6.4"},
     {"name": "composition-feeds-original-residual", "file": CST, "old": "                next_iterate, next_iterate - current_iterate\n", "new": "                next_iterate, residual\n", "expect": "6.5"},
     {"name": "composition-restarts-from-input", "file": CST, "old": "                next_iterate, next_iterate - current_iterate\n", "new": "                iterate, iterate - current_iterate\n", "expect": "6.5"},
